@@ -78,6 +78,7 @@ func deliveryFinal(spec *xferSpec, withStall bool, mon monOpts) func(m *Sim, x *
 		for _, st := range spec.Streams {
 			checkDelivery(m, "delivery", st, r.Written[st.SID], r.Read[st.SID], true)
 		}
+		lateReads(m, spec, r)
 		o := mon
 		if spec.NoSackComplete {
 			o.SackComplete = false
